@@ -18,6 +18,7 @@ priority reported for exactly its current set, and that priority is at most p's 
 -/
 import PubgrubProofs.PSInvariant
 import PubgrubProofs.Freshness
+import PubgrubProofs.RangeAnyOrder2
 
 namespace Pubgrub.C14
 open Pubgrub
@@ -61,5 +62,40 @@ theorem C14_full (W : World P S V M) (hW : W.SetsValid) (debug : Bool)
     ∃ prq prp, lastPrio (Solver.trace debug fuel root rv as) as k q = some (setq, prq) ∧
       (∃ sp, lastPrio (Solver.trace debug fuel root rv as) as k p = some (sp, prp)) ∧ prq ≤ prp :=
   choose_has_maximal_last_priority W hW debug fuel root rv as hok k p s hk q pa setq hq hpos
+
+/-! ### `Range V` over ANY linear order (second batch of pull-backs, RangeAnyOrder2) -/
+section AnyOrder2
+variable {P V M Pr E : Type} [DecidableEq P] [LinearOrder V] [LE Pr] [DecidableLE Pr]
+
+theorem C14_range_pick_sees_all (W : World P (Range V) V M) (hW : W.RangesWF) (debug : Bool) (fuel : Nat)
+    (root : P) (rv : V) (s : SolverState P (Range V) V M Pr) (q : List (P × Pr))
+    (h : Reachable (E := E) W debug fuel root rv (s, .pick q))
+    (p : P) (pa : PackageAssignments (Range V) V) (set : (Range V))
+    (hp : s.st.ps.getPA p = some pa) (hpos : pa.inter = .derivations (.pos set)) :
+    (SmallMap.get q p).isSome = true :=
+  by apply range_C14_pick_sees_all (P := P) (V := V) (M := M) (Pr := Pr) (E := E) <;> assumption
+
+theorem C14_range_choose_is_maximal (W : World P (Range V) V M) (hW : W.RangesWF) (debug : Bool) (fuel : Nat)
+    (root : P) (rv : V) (s : SolverState P (Range V) V M Pr) (q : List (P × Pr)) (p : P)
+    (h : Reachable (E := E) W debug fuel root rv (s, .pick q))
+    (set : (Range V)) (s' : SolverState P (Range V) V M Pr)
+    (hstep : Solver.step (E := E) s (.picked (some p)) = (s', .chooseVersion p set)) :
+    ∃ pr, SmallMap.get q p = some pr ∧
+      ∀ p' pa' set', s.st.ps.getPA p' = some pa' → pa'.inter = .derivations (.pos set') →
+        ∃ pr', SmallMap.get q p' = some pr' ∧ pr' ≤ pr :=
+  by apply range_C14_choose_is_maximal (P := P) (V := V) (M := M) (Pr := Pr) (E := E) <;> assumption
+
+theorem C14_range_full (W : World P (Range V) V M) (hW : W.RangesWF) (debug : Bool)
+    (fuel : Nat) (root : P) (rv : V) (as : List (Answer P (Range V) V M Pr E))
+    (hok : AnswersOK W debug fuel root rv as) (k : Nat) (p : P) (s : (Range V))
+    (hk : (Solver.trace debug fuel root rv as)[k + 1]? = some (.chooseVersion p s))
+    (q : P) (pa : PackageAssignments (Range V) V) (setq : (Range V))
+    (hq : (Solver.after (Solver.start debug fuel root rv) (as.take k)).1.st.ps.getPA q = some pa)
+    (hpos : pa.inter = .derivations (.pos setq)) :
+    ∃ prq prp, lastPrio (Solver.trace debug fuel root rv as) as k q = some (setq, prq) ∧
+      (∃ sp, lastPrio (Solver.trace debug fuel root rv as) as k p = some (sp, prp)) ∧ prq ≤ prp :=
+  by apply range_C14_full (P := P) (V := V) (M := M) (Pr := Pr) (E := E) <;> assumption
+
+end AnyOrder2
 
 end Pubgrub.C14
